@@ -95,6 +95,10 @@ def _cases(tier, rng):
                 yield {"dag": d, "S": list(S), "cut": list(cut), "entry": rng.choice(("subpipeline", "map-output_names",
                                                                                      "map-auto_subpipeline")),
                        "omit_defaults": rng.random() < 0.4, "scoped": rng.random() < 0.25}
+        # the whole pipeline requested (output_names=None: "the entire pipeline is run") through auto_subpipeline, from the
+        # root arguments alone - with or without those that have defaults (possibly from no input at all)
+        yield {"dag": d, "S": list(outs), "cut": [], "entry": "map-auto_subpipeline", "all_outputs": True,
+               "omit_defaults": rng.random() < 0.6, "scoped": False}
 
 
 def _safe_eval(d, out):
@@ -161,7 +165,8 @@ def _check(case):
             pre = "foo." if scoped else ""
             try:
                 # scoped pipelines: inputs in the nested-dict calling convention
-                res = p.map({"foo": dict(kw)} if (scoped and kw) else dict(kw), output_names={pre + s for s in S},
+                res = p.map({"foo": dict(kw)} if (scoped and kw) else dict(kw),
+                            output_names=None if case.get("all_outputs") else {pre + s for s in S},
                             parallel=False, storage="dict", **extra)
             except Exception as e:  # noqa: BLE001
                 if "Inconsistent default values" in str(e) and dag.conflicting_defaults(d) & I:
